@@ -102,11 +102,27 @@ module Coq_Pos :
 
   val mul : positive -> positive -> positive
 
+  val iter : ('a1 -> 'a1) -> 'a1 -> positive -> 'a1
+
   val compare_cont : comparison -> positive -> positive -> comparison
 
   val compare : positive -> positive -> comparison
 
   val eqb : positive -> positive -> bool
+
+  val coq_Nsucc_double : n -> n
+
+  val coq_Ndouble : n -> n
+
+  val coq_lor : positive -> positive -> positive
+
+  val coq_land : positive -> positive -> n
+
+  val ldiff : positive -> positive -> n
+
+  val shiftl : positive -> n -> positive
+
+  val testbit : positive -> n -> bool
 
   val iter_op : ('a1 -> 'a1 -> 'a1) -> positive -> 'a1 -> 'a1
 
@@ -147,11 +163,27 @@ module N :
 
   val div_eucl : n -> n -> n * n
 
+  val div : n -> n -> n
+
   val modulo : n -> n -> n
+
+  val coq_lor : n -> n -> n
+
+  val coq_land : n -> n -> n
+
+  val ldiff : n -> n -> n
+
+  val shiftl : n -> n -> n
+
+  val testbit : n -> n -> bool
 
   val to_nat : n -> nat
 
   val of_nat : nat -> n
+
+  val setbit : n -> n -> n
+
+  val clearbit : n -> n -> n
  end
 
 val u32MAX : n
@@ -368,6 +400,28 @@ val sp_values : 'a1 spm -> 'a1 list
 val strip_max : n list -> n list
 
 val sp_shrink : 'a1 spm -> 'a1 spm
+
+val bITS : n
+
+type bs = n list
+
+val bs_mem : bs -> n -> bool
+
+val bs_insert : bs -> n -> bool * bs
+
+val bs_remove : bs -> n -> bool * bs
+
+val bs_contains : bs -> n -> bool
+
+val bs_or : bs -> bs -> bs
+
+val bs_disjoint : bs -> bs -> bool
+
+val bs_is_empty : bs -> bool
+
+val strip0 : n list -> n list
+
+val bs_shrink : bs -> bs
 
 type outcome =
 | Finished
